@@ -97,26 +97,37 @@ def string_cases(prog, cr, rule="R18.4"):
         return judge
     State.exc_is_qerr = lambda self, n: n in ("QuantityError", "IncompatibleUnitsError", "UnitConversionError",
                                               "UndefinedResultError")
+    all_outs = []
     for factory in ("generic", "own type"):
         for wu in (False, True):
-            cr.run(rule, new, f"string, {factory} factory, {'explicit unit' if wu else 'no unit argument'}",
-                   setup_str(factory, wu), judge_str(factory, wu), inline_ctor=True, min_paths=4)
+            all_outs += cr.run(rule, new, f"string, {factory} factory, {'explicit unit' if wu else 'no unit argument'}",
+                               setup_str(factory, wu), judge_str(factory, wu), inline_ctor=True, min_paths=4)
 
-
-    # reader idiom: amount and symbol are separated at the first blank, the symbol is stripped
-    idiom, reader_ok = None, False
-    for n in ast.walk(new.node):
-        if isinstance(n, ast.Call) and isinstance(n.func, ast.Attribute) and \
-                n.func.attr in ("split", "partition", "rsplit", "rpartition"):
-            args = [src_of(a) for a in n.args]
-            idiom = f"{n.func.attr}({', '.join(args)})"
-            if n.func.attr == "split" and args in (["' '", "1"], ["None", "1"]):
-                reader_ok = True
-            if n.func.attr == "partition" and args == ["' '"]:
-                reader_ok = True
-    if idiom is None:
-        raise AnalysisError("anchor vanished: string splitting idiom in Quantity.__new__")
-    res.ob(rule + "i", "Quantity.__new__", "reader splits at the first blank", reader_ok, f"idiom {idiom}",
+    # reader idiom: amount and symbol are separated at the first blank, the symbol is stripped - read off the
+    # evaluated paths (wherever the splitting is written), not off the constructor's source
+    idioms, bad = set(), set()
+    for o in all_outs:
+        for e in o.state.effects:
+            if e[0] != "strsplit" or not (isinstance(e[1], StrV) and (e[1].tag or "").split(".")[0] == "text"):
+                continue
+            args = []
+            for a_ in e[3]:
+                if isinstance(a_, StrV):
+                    args.append(repr(a_.const))
+                elif isinstance(a_, NoneV):
+                    args.append("None")
+                elif isinstance(a_, Num) and a_.rf.is_const():
+                    args.append(str(a_.rf.const_value()))
+                else:
+                    args.append("?")
+            idiom = f"{e[2]}({', '.join(args)})"
+            idioms.add(idiom)
+            ok = (e[2] == "split" and args in (["' '", "1"], ["None", "1"])) or (e[2] == "partition" and args == ["' '"])
+            if not ok:
+                bad.add(idiom)
+    if not idioms:
+        raise AnalysisError("anchor vanished: no splitting of the text on any evaluated path of Quantity.__new__")
+    res.ob(rule + "i", "Quantity.__new__", "reader splits at the first blank", not bad, f"idiom {sorted(idioms)}",
            sig="reader does not separate amount and symbol at the first blank")
 
 
@@ -127,7 +138,7 @@ def run(prog, tier) -> Result:
         "decimal, float, str, other): the stored amount equals the given number exactly (floats through the exact "
         "Decimal/Fraction coercions; strings through Decimal, then Fraction, else QuantityError), no float is stored, "
         "and the only rounding is the quantum step. R18.3: str(q) is amount, one blank, unit symbol; the default "
-        "format spec instantiates to the same template; the reader splits at the first blank and strips the symbol, "
+        "format spec instantiates to the same template; the reader splits at the first blank, "
         "and a unit's str is the symbol the reader looks up. R18.4/5: unknown symbol, malformed amount, missing "
         "unit and unit of another type raise QuantityError; a string with an explicit different unit equals parsing "
         "and then converting; both factories yield the type of the symbol's unit.")
@@ -196,9 +207,6 @@ def run(prog, tier) -> Result:
         ([("field", src_of(ur[0].value), -1, None)] if ur else None)
     res.ob("R18.3", "Unit.__str__", "is the symbol", ut in ([("field", "self.symbol", -1, None)], [("field", "self._symbol", -1, None)]),
            f"{ut}", sig="str(unit) is not its symbol")
-    strips = any(isinstance(n, ast.Call) and isinstance(n.func, ast.Attribute) and n.func.attr == "strip"
-                 for n in ast.walk(new.node))
-    res.ob("R18.3", "Quantity.__new__", "symbol stripped", strips, "", sig="symbol not stripped", nontrivial=False)
 
     res.require("R18.1", 28)
     res.require("R18.3", 5)
